@@ -174,6 +174,9 @@ class Runtime:
             return {'t': 'opaque', 'name': v._name}
         if isinstance(v, Mock):
             return {'t': 'ref', 'addr': v._addr}
+        for a_, o_ in self.objects.items():
+            if o_ is v:
+                return {'t': 'ref', 'addr': a_}
         if v is self.self_obj:
             return {'t': 'ref', 'addr': self.job['self']['addr']}
         for a, o in self.objects.items():
@@ -242,6 +245,17 @@ class StubFn:
             ent = rt.next_script(lambda e: e.get('recv_addr') == self.addr and
                                  e['key'].rsplit('.', 1)[-1] == self.name, what)
         return rt.answer(ent, args, kwargs, what)
+
+
+class NullLogger:
+    """stands in for self.logger / self._logger (extraction drops logger calls as effect-free)"""
+    def __getattr__(self, name):
+        if name.startswith('__'):
+            raise AttributeError(name)
+        return lambda *a, **k: self
+
+    def __bool__(self):
+        return True
 
 
 class ReplayDivergence(BaseException):
@@ -324,6 +338,9 @@ def run_job(job):
                 cls = rt.lookup(job['self_runtime_class'])
             obj = object.__new__(cls)
             rt.self_obj = obj
+        elif o.get('real'):
+            rcls = getattr(importlib.import_module('asyncssh.' + o['real'][0]), o['real'][1])
+            obj = object.__new__(rcls)
         else:
             obj = Mock(o['addr'], o['cls'])
         rt.objects[o['addr']] = obj
@@ -352,6 +369,14 @@ def run_job(job):
                     real._over[attr] = stub
             else:
                 setattr(mod, key, stub)
+    if rt.self_obj is not None:
+        try:
+            object.__getattribute__(rt.self_obj, '_logger')
+        except AttributeError:
+            try:
+                object.__setattr__(rt.self_obj, '_logger', NullLogger())
+            except Exception:
+                pass
     for name in job.get('self_stub_methods', []):
         object.__setattr__(rt.self_obj, name, StubFn(rt, selfj['addr'], name))
     # 3. call
